@@ -336,7 +336,8 @@ class C07(Check):
     def must_fire(self):
         return [
             Variant("constants-frozen-from-free-inputs", MOD, GEN, "if moving.isdisjoint(args):", "if True:", expect="G11|", quick=True),
-            Variant("declaration-order-again", MOD, GEN, "for name in model._create_cache().order:", "for name in [*derived_by_name, *reactions_by_name]:", expect="G1|", quick=True),
+            Variant("declaration-order-again", MOD, GEN, "reactions_by_name = model.get_raw_reactions()\n    for name in model._create_cache().order:",
+                    "reactions_by_name = model.get_raw_reactions()\n    for name in [*derived_by_name, *reactions_by_name]:", expect="G1|", quick=True),
             Variant("no-initial-assignment-parameters", MOD, GEN,
                     "    for name in model.get_parameter_names():\n        if name not in parameters:\n            parameters[name] = all_parameter_values[name]\n", "", expect="G2|", quick=True),
             Variant("reintroduce-python-bare-unpack", MOD, "generate_model_code_py", "variables_template='    ({},) = variables'", "variables_template='    {} = variables'", expect="G5|", quick=True),
